@@ -77,7 +77,7 @@ pub fn world(n_contracts: usize) -> World {
     let mut ks = vec![];
     let mut bal = vec![];
     for i in 0..n_contracts {
-        let k_ = app.instantiate_contract(code, user.clone(), &Script::new(), &[], format!("k{}", i), None).unwrap();
+        let k_ = app.instantiate_contract(code, user.clone(), &Script::new(), &[], format!("k{}", i), Some(user.to_string())).unwrap();
         let b = sym_u128(&format!("bal_k{}", i), 0, BAL);
         app.init_modules(|router, _, storage| router.bank.init_balance(storage, &k_, vec![coin(b, "x")]).unwrap());
         ks.push(k_);
